@@ -536,6 +536,12 @@ SKIP_DOCS += [
     b"[[[[[[[[[[[[[[[[[[[[1]]]]]]]]]]]]]]]]]]]] 3", b"[([{a:[({})]}])] 3", b"[[[[[[[[[[", b"[[[[]]]]] 3", b"[(])] 3", b"[(]) 3", b"{a:[}]} 3", b"[[[((({{{}}})))]]] 3", b"[{{}}] 3", b"[{{{}}}] 3",
 ]
 
+# blobs whose base64 text contains "//" (inside {{ }} a slash is data, never a comment), skipped inside each container
+SKIP_DOCS += [
+    b"[{{ /9j//w== }}, 2] 3", b"[{{ //// }}, 2] 3", b"({{ //// }} a) 3", b"{a:{{ /9j//w== }}, b:1} 3", b"[{{////}}] 3", b"[{{ //\n// }}, 2] 3",
+    b"[{{ ////\n}}, 2]\n3", b"[[{{ //// }}], 2] 3", b"{a:[{{ +/+/ }}, {{ //8= }}]} 3", b"[{{ //// }}, {{ //// }}] 3", b"[a::{{ //// }}] 3", b"[{{ /w== }}, 2] 3",
+]
+
 LST_DOCS = [
     b'$ion_symbol_table::{symbols:["a","b"]} $10 $11 $12', b'$ion_symbol_table::{symbols:["a"]} $ion_symbol_table::{symbols:["b"]} $10 $11',
     b'$ion_symbol_table::{symbols:["a"]} $ion_symbol_table::{imports:$ion_symbol_table,symbols:["b"]} $10 $11 $12',
